@@ -3,10 +3,12 @@
 tier=${1:-quick}
 cd "$(dirname "$(readlink -f "$0")")"
 rc=0
+logdir=$(mktemp -d /tmp/verif-runall-XXXXXX)
 for p in C07 C08 C15 C18 C19 C20 C21 C22 C23 C24; do
-  ./check $p $tier > /tmp/check_$p.log 2>&1; r=$?
-  tail -1 /tmp/check_$p.log | cut -c1-220
-  grep -E "^(VIOLATION|HARNESS-ERROR|WARNING)" /tmp/check_$p.log | cut -c1-300
+  ./check $p $tier > $logdir/$p.log 2>&1; r=$?
+  tail -1 $logdir/$p.log | cut -c1-220
+  grep -E "^(VIOLATION|HARNESS-ERROR|WARNING)" $logdir/$p.log | cut -c1-300
   [ $r -ne 0 ] && rc=$r
 done
+rm -rf $logdir
 exit $rc
